@@ -30,14 +30,14 @@ coverage_extra = C04.coverage_extra
 
 def bounds(tier: str) -> Dict[str, Any]:
     return {"messages": "M = 3 quick / 4 thorough", "A": "unbounded Int >= 1", "P": "unbounded Int >= 0 (plain, quota) / {0,1} (timeout cases)",
-            "N": "unbounded Int >= 1", "wait_tasks_timeout": "None or 5.0", "environment choices": "K = 6 quick / 8 thorough, then deterministic drain"}
+            "N": "unbounded Int >= 1", "wait_tasks_timeout": "None, 0 or 5.0", "environment choices": "K = 6 quick / 8 thorough, then deterministic drain"}
 
 
 def cases(tier: str) -> List[Any]:
     out = []
     M = 3 if tier == "quick" else 4
     K = 6 if tier == "quick" else 8
-    for cfg in ("plain", "quota", "wtt0", "wtt1"):
+    for cfg in ("plain", "quota", "wtt0", "wtt1", "wttzero"):
         for prefix in itertools.product(range(3), repeat=3):
             out.append({"M": M, "K": K, "cfg": cfg, "prefix": list(prefix)})
     return out
@@ -49,8 +49,8 @@ def harness(c: sym.Ctx, case: Dict[str, Any]) -> None:
     wtt = None
     P: Any = "sym"
     if cfg.startswith("wtt"):
-        wtt = 5.0
-        P = int(cfg[-1])
+        wtt = 0.0 if cfg == "wttzero" else 5.0
+        P = 0 if cfg == "wttzero" else int(cfg[-1])
         outcomes = [c.choose(["return", "never"], f"outcome{k}") for k in range(M)]
     spec = {"M": M, "kinds": ["valid"] * M, "outcomes": outcomes, "A": "sym", "P": P, "N": "sym" if cfg == "quota" else "none",
             "wtt": wtt, "K": case["K"], "prefix": case["prefix"]}
@@ -97,5 +97,5 @@ def signature(f: Dict[str, Any]) -> str:
     sig = f["label"]
     if f["label"] == "listen_returns_after_shutdown_request":
         i = f["info"]
-        sig += f":runner_waiting_for_slot={i.get('runner_waiting_for_slot')}:wtt={'set' if i.get('wtt') else 'none'}:hanging_tasks={'yes' if i.get('hanging') else 'no'}"
+        sig += f":runner_waiting_for_slot={i.get('runner_waiting_for_slot')}:wtt={'set' if i.get('wtt') is not None else 'none'}:hanging_tasks={'yes' if i.get('hanging') else 'no'}"
     return sig
